@@ -27,9 +27,9 @@ D1_KEY = "replay:keysend-expiry-precheck"
 FULL = "{3, 2, 4, 5}"
 MC_QUICK = [("regular", "hold", 3, FULL), ("zeroamt", "keysend", 2, FULL), ("noaddr", "holdna", 3, FULL),
             ("amp", "regular", 2, FULL)]
-MC_THOROUGH = MC_QUICK + [("zeroamt", "keysend", 3, FULL), ("regular", "regular", 3, FULL), ("hold", "hold", 3, FULL),
-                          ("keysend", "holdna", 3, FULL), ("zeroamt", "noaddr", 3, FULL), ("amp", "amp", 2, FULL),
-                          ("keysend", "amp", 2, FULL), ("holdna", "amp", 2, FULL), ("amp", "regular", 3, "{2, 4}")]
+MC_THOROUGH = MC_QUICK + [("zeroamt", "keysend", 3, FULL), ("regular", "regular", 3, FULL),
+                          ("keysend", "holdna", 3, FULL), ("amp", "amp", 2, FULL), ("keysend", "amp", 2, FULL),
+                          ("holdna", "amp", 2, FULL), ("amp", "regular", 3, "{2, 4}")]
 
 
 def q(s):
